@@ -291,3 +291,71 @@ def enumerate_paths(cfg, start, stop_pred, max_paths=20000, max_len=400, du=None
                 paths.append(path + [-1]); continue
             stack.append((d, path + [d], env, onpath | {d}))
     return paths
+
+
+def ref_base(du, local, max_hops=12):
+    """follow single-definition ref/copy chains: returns (base_local, saw_mut_ref)"""
+    mut = False
+    l = local
+    for _ in range(max_hops):
+        ds = du.defs.get(l, [])
+        if len(ds) != 1 or ds[0][0] != "stmt": return l, mut
+        s = ds[0][1]
+        if s.kind != "assign" or s.lhs.p: return l, mut
+        if s.rv in ("ref", "rawptr"):
+            if s.bk and "mut" in str(s.bk).lower(): mut = True
+            l = s.rplace.l; continue
+        if s.rv in ("use", "cast") and s.ops and s.ops[0].place is not None:
+            l = s.ops[0].place.l; continue
+        return l, mut
+    return l, mut
+
+
+def forward_taint(body, du, seeds, cleanup=False, no_flow=()):
+    """Flow-insensitive forward taint over locals. seeds: iterable of locals.
+    A value flows: through every assignment that reads a tainted local; from any
+    tainted call argument to the call's destination and to the base local of every
+    argument passed by `&mut` (the callee may store it there). `no_flow`: callee
+    name patterns (Callee.matches) through which nothing flows.
+    Over-approximate on purpose: used for must-reach rules (absence of flow = violation)."""
+    T = set(seeds)
+    changed = True
+    while changed:
+        changed = False
+        for b in body.blocks:
+            if b.cleanup and not cleanup: continue
+            for s in b.stmts:
+                if s.kind != "assign": continue
+                hit = any(o.place is not None and o.place.l in T for o in s.ops) or (s.rplace is not None and s.rplace.l in T)
+                if hit and s.lhs.l not in T:
+                    T.add(s.lhs.l); changed = True
+                # a mutable reference to a tainted-through-deref local: writing *r = tainted taints the base
+                if hit and "*" in s.lhs.p:
+                    bl, _ = ref_base(du, s.lhs.l)
+                    if bl not in T: T.add(bl); changed = True
+            t = b.term
+            if t.kind == "call":
+                if not t.callee.indirect and no_flow and t.callee.matches(*no_flow): continue
+                hit = any(a.place is not None and a.place.l in T for a in t.args)
+                if hit:
+                    if t.dest.l not in T: T.add(t.dest.l); changed = True
+                    for a in t.args:
+                        if a.place is None: continue
+                        bl, mut = ref_base(du, a.place.l)
+                        if mut and bl not in T: T.add(bl); changed = True
+    return T
+
+
+def ref_chain(du, local, max_hops=12):
+    """all locals on the single-definition ref/copy chain starting at `local` (inclusive)"""
+    out = [local]; l = local
+    for _ in range(max_hops):
+        ds = du.defs.get(l, [])
+        if len(ds) != 1 or ds[0][0] != "stmt": break
+        s = ds[0][1]
+        if s.kind != "assign" or s.lhs.p: break
+        if s.rv in ("ref", "rawptr"): l = s.rplace.l
+        elif s.rv in ("use", "cast") and s.ops and s.ops[0].place is not None: l = s.ops[0].place.l
+        else: break
+        out.append(l)
+    return out
